@@ -292,7 +292,7 @@ PARSER = [
   F('Parser::parse_token',
     spec=r'''    requires old(self).wf(),
     ensures r is Ok ==> final(self).wf() && final(self).bytes() == old(self).bytes() && final(self).m() < old(self).m(),
-        r matches Ok(v) ==> final(self).d_prim(old(self), v),
+        r matches Ok(v) ==> (if old(self).cur() is Operator { final(self).d_prim(old(self), v) } else { final(self).d_atom(old(self), v) }),
     decreases old(self).m(), 3int,''',
     ops=[
       Ins('call:Literal::Number', 'before', 'proof { reveal_with_fuel(wf, 2); let g = G::Lit(token); assert(wf(g, self.bytes(), self.cur())); }'),
@@ -342,7 +342,7 @@ PARSER = [
         r matches Ok(v) ==> final(self).d_prim(old(self), v),
     decreases old(self).m(), 4int,''',
     ops=[
-      Ins('if#0', 'before', "let ghost gl = choose|x: G<'a>| is_prim(x) && first(x) == old(self).cur() && wf(x, self.bytes(), self.cur()) && ast_of(x) == lhs;"),
+      Ins('if#0', 'before', "let ghost gl = choose|x: G<'a>| is_prim(x) && (is_prefix_expr || is_atom(x)) && first(x) == old(self).cur() && wf(x, self.bytes(), self.cur()) && ast_of(x) == lhs;"),
       Ins('let:op', 'before', "let ghost t_op = self.cur();"),
       LetBind('call:to_string', 's2', post="""proof {
                 broadcast use axiom_string_to_string;
@@ -400,14 +400,14 @@ PARSER = [
   F('Parser::parse_delim',
     spec=r'''    requires old(self).wf(), old(self).cur() matches Token::Delim(d, _) && d == ty,
     ensures r is Ok ==> final(self).wf() && final(self).bytes() == old(self).bytes() && final(self).m() < old(self).m(),
-        r matches Ok(v) ==> final(self).d_prim(old(self), v),
+        r matches Ok(v) ==> final(self).d_atom(old(self), v),
     decreases old(self).m(), 2int,''',
     ops=[],
   ),
   F('Parser::parse_open_paren',
     spec=r'''    requires old(self).wf(), tok_is(old(self).cur(), "("@),
     ensures r is Ok ==> final(self).wf() && final(self).bytes() == old(self).bytes() && final(self).m() < old(self).m(),
-        r matches Ok(v) ==> final(self).d_prim(old(self), v),
+        r matches Ok(v) ==> final(self).d_atom(old(self), v),
     decreases old(self).m(), 1int,''',
     ops=[
       Ins('call:next', 'after', "        let ghost t1 = self.cur();"),
@@ -419,7 +419,7 @@ PARSER = [
   F('Parser::parse_open_bracket',
     spec=r'''    requires old(self).wf(), tok_is(old(self).cur(), "["@),
     ensures r is Ok ==> final(self).wf() && final(self).bytes() == old(self).bytes() && final(self).m() < old(self).m(),
-        r matches Ok(v) ==> final(self).d_prim(old(self), v),
+        r matches Ok(v) ==> final(self).d_atom(old(self), v),
     decreases old(self).m(), 1int,''',
     ops=[
       Ins('call:next', 'before', "let ghost t_open = self.cur();"),
@@ -452,7 +452,7 @@ PARSER = [
   F('Parser::parse_open_brace',
     spec=r'''    requires old(self).wf(), tok_is(old(self).cur(), "{"@),
     ensures r is Ok ==> final(self).wf() && final(self).bytes() == old(self).bytes() && final(self).m() < old(self).m(),
-        r matches Ok(v) ==> final(self).d_prim(old(self), v),
+        r matches Ok(v) ==> final(self).d_atom(old(self), v),
     decreases old(self).m(), 1int,''',
     ops=[
       Ins('call:next', 'before', "let ghost t_open = self.cur();"),
@@ -506,7 +506,7 @@ PARSER = [
   F('Parser::parse_function',
     spec=r'''    requires old(self).wf(), old(self).cur() matches Token::Function(nm, _) && nm == name,
     ensures r is Ok ==> final(self).wf() && final(self).bytes() == old(self).bytes() && final(self).m() < old(self).m(),
-        r matches Ok(v) ==> final(self).d_prim(old(self), v),
+        r matches Ok(v) ==> final(self).d_atom(old(self), v),
     decreases old(self).m(), 1int,''',
     ops=[
       Ins('call:next', 'before', "let ghost t_name = self.cur();"),
